@@ -277,7 +277,11 @@ def lit_atoms(l):
 
 
 def fr(p):
-    return repr(float(F(p)))
+    t = repr(float(F(p)))
+    if "e" in t or "E" in t:   # no exponent notation in program text
+        from decimal import Decimal
+        t = format(Decimal(t), "f")
+    return t
 
 
 def stmt_src(s):
